@@ -191,7 +191,9 @@ def correspond(ctx):
                 if got != want:
                     ctx.fail("date-readback" + (":year<1000" if v.year < 1000 else ""), f"{name} = {v!r} reads back {got!r} (stored {el.text!r})", {"prop": name, "value": str(v)})
             else:
-                v = rng.choice([1, 2, 7, 10**6, 0, -1, "3", 2.0, None])
+                from pptx.enum.text import MSO_ANCHOR
+                from pptx.util import Emu
+                v = rng.choice([1, 2, 7, 10**6, 0, -1, "3", 2.0, None, True, False, 2**31, 10**30, MSO_ANCHOR.MIDDLE, Emu(5)])
                 try:
                     cp.revision = v
                     ok = True
@@ -202,6 +204,10 @@ def correspond(ctx):
                     ctx.fail("revision-domain", f"revision = {v!r} -> {'accepted' if ok else 'rejected'}", {"value": repr(v)})
                 if ok and cp.revision != v:
                     ctx.fail("revision-readback", f"revision = {v!r} reads {cp.revision!r}", {"value": repr(v)})
+                if not ok and isinstance(v, int) and not isinstance(v, bool):
+                    add(f"c18.wrev {int(v)}", "refused", ("revision", "revision", str(v)))
+                if ok:
+                    add(f"c18.wrev {int(v)}", enc(cp._element.revision.text or ""), ("revision", "revision", str(v)))
         cur = prs
         for cyc in range(rng.choice([1, 1, 2])):
             cur, data = reopen(cur)
